@@ -205,7 +205,7 @@ Section Sem.
     | n :: r =>
         match enabled c with
         | [] => c
-        | t0 :: _ as en =>
+        | (t0 :: _) as en =>
             let t := nth (Z.to_nat (n mod Z.of_nat (length en))) en t0 in
             match step c t with Some c' => run_picks fuel c' r | None => c end
         end
